@@ -80,6 +80,11 @@ def parseDecl (ps : Array ParInfo) (j : Json) : Except String Decl := do
     let es ← (← getArr j "elems").toList.mapM (parseE ps)
     return .arrE es
   | "dm" => return .dm (← parseRat (← getObj j "v"))
+  | "notlit" => do
+    -- `not <literal>` is `ca.if_else(literal, 0, 1, True)`: the walk delivers a 1×1 DM, the same kind
+    -- (`Walk.dm`) as a product of two numerals
+    let b ← getBool j "v"
+    return .expr (.mul (.num 1) (.num (if b then 0 else 1)))
   | _ => throw s!"bad declaration {k}"
 
 def optDecl (ps : Array ParInfo) (attrs : Json) (k : String) : Except String (Option Decl) :=
